@@ -15,7 +15,7 @@ from ..universe import terms as T
 from . import _eval as E
 
 ID = "C05"
-SETS = {"quick": ["U1L", "P:P1q", "P:P3q", "P:P4q"], "thorough": ["U1L_all", "U2K", "P:P0", "P:P1", "P:P3", "P:P4"]}
+SETS = {"quick": ["U1L", "P:P1q", "P:P3q", "P:P4q", "P:P6q"], "thorough": ["U1L_all", "U2K", "P:P0", "P:P1", "P:P3", "P:P4", "P:P6"]}
 STEP = 30
 NMEM = 4  # member inputs taken from the first NMEM values of each member
 REJECT_POOL = [lambda: object(), lambda: {"zz_no_such": object()}, lambda: "\x00not-a-value\x00", lambda: [[["deep"]]], lambda: 3.25j]
@@ -69,9 +69,9 @@ def struct_fields(term):
 
 
 def make_struct(term, ns, kwargs):
-    isdict = term.isdict() if term.kind == "cls" else term.name in ("TD", "TDnr")
+    isdict = term.isdict() if term.kind == "cls" else term._cls is dict
     if isdict:
-        req = term.required() if term.kind == "cls" else getattr(term, "_required", ("a", "b"))
+        req = term.required() if term.kind == "cls" else ns[term.name].__required_keys__
         missing = [r for r in req if r not in kwargs]
         if missing:
             raise TypeError(f"missing {missing}")
@@ -181,7 +181,7 @@ def marshal_reference(term, ns, mms, v):
 
 
 def judge_term(term, ns, ann, res, case, only=None):
-    if term.kind in ("leaf", "literal", "union") or not term.args:
+    if term.kind in ("leaf", "literal", "union") or (not term.args and term.kind != "struct"):
         return False
     if term.kind == "struct":
         margs = [t for _, t in struct_fields(term)]
